@@ -24,6 +24,7 @@ ASSUMPTIONS = [
     "vf/ref/bencode.py strict decoder (self-checked against hand-made non-canonical documents at start)",
     "file names are valid UTF-8",
 ]
+FUZZ_RUNS = 40000   # thorough tier: libFuzzer runs per campaign of the coverage-guided stage (vf/fuzz.py)
 BUDGET = {
     "quick": {"examples": 400, "workers": 8, "time_cap": 70},
     "thorough": {"examples": 15000, "workers": 14, "time_cap": 900},
